@@ -36,7 +36,7 @@ def main():
                 v = g.pick([None, '', '8', '8080', g.port()])
             ops.append((k, v))
         return ops
-    n = 12000 if thorough else 3000
+    n = 60000 if thorough else 3000
     for fam in ('uri', 'iri'):
         g = Gen(random.Random(rnd.random()), fam)
         for _ in range(n // 2):
